@@ -1,0 +1,7 @@
+// +build !verif
+
+package main
+
+// verifPoint marks a point of interest for the verification harness
+// (see verif_on.go, build tag "verif").  Without the tag it does nothing.
+func verifPoint(point string) {}
